@@ -156,7 +156,7 @@ def hmc_workers(prop, depth, profiles, parities, flags, roots=None, alphabet="fu
     return ws
 
 
-def plan_hmc(prop, flags_quick, flags_thorough, oracle_text, profiles_quick=("rel",), both_profiles_thorough=True):
+def plan_hmc(prop, flags_quick, flags_thorough, oracle_text, profiles_quick=("rel",), both_profiles_thorough=True, with_loom=False):
     def plan(tier):
         if tier == "thorough":
             ws = hmc_workers(prop, 5, ["rel", "dbg"] if both_profiles_thorough else ["rel"], ["even", "odd"], flags_thorough)
@@ -164,7 +164,13 @@ def plan_hmc(prop, flags_quick, flags_thorough, oracle_text, profiles_quick=("re
                 ws += hmc_workers(prop, d, ["rel"], ["even", "odd"], flags_thorough + ["--no-ooc", "--no-huge"], roots=["2,4", "3,4", "5,4", "9,4", "10,4"], alphabet=alph)
         else:
             ws = hmc_workers(prop, 4, list(profiles_quick), ["even", "odd"], flags_quick)
-        return dict(workers=ws, level="model_checking", distinct_is_max=False, rule=HMC_RULE + "; oracle of this check: " + oracle_text,
+        extra = None
+        if with_loom:
+            import loomrun
+            sets = [dict(set="quick", shards=16)] if tier != "thorough" else [dict(set="quick", shards=16), dict(set="full", shards=48)]
+            extra = lambda vc, t: loomrun.run(vc, prop, t, sets)
+        return dict(workers=ws, extra=extra, level="model_checking", distinct_is_max=False, rule=HMC_RULE + "; oracle of this check: " + oracle_text + (
+                    "; additionally the loom program family of C05 (concurrent histories) is run and its violations of this property are reported here" if with_loom else ""),
                     bounds="quick: depth 4 (root + 4 operations), full alphabet incl. out-of-contract arguments, both parities; thorough: depth 5 in rel+dbg x even+odd plus focused alphabets (Bytes-only, BytesMut structure, conversions) to depth 7-8",
                     assumptions=["buffers <= 6 bytes; arguments are the listed boundary values", "data independence: byte values are not part of the state key (they are compared with the model on every execution)",
                                  "the hook descriptors are used only for the state key, never as an oracle"])
@@ -199,12 +205,12 @@ def plan_c18(tier):
     ws.append(R(["--set", "small", "--k", "0", "--roundtrip", "--unsplit", "--periodic", "3"], par="odd"))
     ws.append(R(["--set", "small", "--k", "1"]))
     ws.append(R(["--set", "small", "--k", "1", "--roundtrip"], par="odd"))
-    ws.append(R(["--set", "small", "--k", "1", "--periodic", "3", "--max-states", "1"]))
-    ws.append(R(["--set", "small", "--k", "2", "--periodic", "3", "--roundtrip", "--unsplit", "--max-states", "1"]))
+    ws.append(R(["--set", "small", "--k", "1", "--periodic", "3", "--periodic-only"]))
+    ws.append(R(["--set", "small", "--k", "2", "--periodic", "3", "--roundtrip", "--unsplit", "--periodic-only"]))
     # threshold sets (original-capacity logic): periodic enumeration in quick, fixpoint in thorough
     for st in ["t1k", "t2k", "t64k"]:
-        ws.append(R(["--set", st, "--k", "0", "--roundtrip", "--unsplit", "--periodic", "2", "--rounds", "40", "--max-states", "20000"]))
-        ws.append(R(["--set", st, "--k", "1", "--periodic", "2", "--rounds", "40", "--max-states", "1"]))
+        ws.append(R(["--set", st, "--k", "0", "--roundtrip", "--unsplit", "--periodic", "2", "--rounds", "40", "--periodic-only"]))
+        ws.append(R(["--set", st, "--k", "1", "--periodic", "2", "--rounds", "40", "--periodic-only"]))
     if tier == "thorough":
         ws.append(R(["--set", "small", "--k", "2", "--max-states", "3000000"]))
         ws.append(R(["--set", "small", "--k", "1", "--unsplit", "--max-states", "3000000"]))
@@ -213,7 +219,7 @@ def plan_c18(tier):
         ws.append(R(["--set", "t1k", "--k", "0", "--max-states", "2000000"]))
         ws.append(R(["--set", "t2k", "--k", "0", "--max-states", "2000000"]))
         ws.append(R(["--set", "small", "--k", "0", "--roundtrip", "--unsplit", "--periodic", "4"], prof="dbg"))
-        ws.append(R(["--set", "small", "--k", "1", "--periodic", "4", "--max-states", "1"]))
+        ws.append(R(["--set", "small", "--k", "1", "--periodic", "4", "--periodic-only"]))
     return dict(
         workers=ws, level="model_checking", distinct_is_max=False,
         rule="the recycle protocol as a nondeterministic transition system over the real crate (refill = reserve(n)+append, consume by split/split_to/advance/truncate/clear with or without freeze, retention window of k parts, "
@@ -225,15 +231,44 @@ def plan_c18(tier):
     )
 
 
+def plan_c16(tier):
+    import c16
+    return dict(custom=lambda vc, t: c16.run(vc, "C16", t), level="model_checking", distinct_is_max=False,
+                rule="the complete (no deduplication) enumeration of operation histories of engine A - every operation with every boundary, out-of-contract and usize::MAX-class argument on every handle, from each of 18 roots - "
+                     "is executed in 12 configurations {std, no-default-features, extra-platforms} x {release, debug-assertions+overflow-checks} x {even, odd allocator addresses}; per history the address-free observable record "
+                     "(which calls panicked, return values, contents, lengths, capacities, uniqueness, leaks) is hashed per bucket (root, first operation) and the 12 digest vectors are compared; the first differing history is located by "
+                     "dumping the bucket in both configurations. The C10 getter table is compared across profiles and parities by the C10 check itself (both must equal the independent decoder). evaluations = histories executed; distinct_nontrivial = buckets",
+                bounds="quick: every history of <= 2 operations after the root (about 10^4 per root and configuration); thorough: <= 3 operations (about 10^6)",
+                assumptions=["capacities are compared too (Vec growth policy is configuration independent)", "big-endian / 32-bit targets are not run"])
+
+
+def plan_c17(tier):
+    if tier == "thorough":
+        ws = sharded("bufmc", "c17", "thorough", 16, ["rel", "dbg"], ["even", "odd"])
+    else:
+        ws = sharded("bufmc", "c17", "thorough", 16, ["rel"], ["even"]) + sharded("bufmc", "c17", "quick", 4, ["dbg"], ["odd"])
+    return dict(
+        workers=ws, level="fault_enumeration", distinct_is_max=True,
+        rule="fault enumeration: scripted misbehaving safe trait impls (Buf: remaining() +-1, +-7, 0, usize::MAX/2, usize::MAX or panicking; chunk() empty / shorter / longer-than-admitted / panicking; advance() ignored / partial / panicking; "
+             "AsRef owner that panics or answers a different slice per call; iterators with size hints 0 / too small / too large / usize::MAX or panicking) passed to 24 entry points (BytesMut/Vec/slice/Limit/Chain put, default and overridden "
+             "copy_to_bytes, copy_to_slice, getters on fast and slow paths and through Take/&mut/Box<dyn>/Chain, chunks_vectored, Reader, IntoIter, from_owner, Extend/FromIterator); ALL placements of <= 2 deviations among the first calls of each method "
+             "(quick: all single deviations among the first 6 calls + all pairs among the first 4 in rel; thorough also dbg and odd parity); lies that lead to allocatable-but-huge requests run in forked children; oracle: allocator ledger, canaries, "
+             "no guard/poison/uninitialised byte in any output (the liar's data sits flush against a canary zone), nothing leaked after unwinding. distinct_nontrivial = distinct deviation scripts",
+        assumptions=["panics and wrong data are allowed outcomes", "a fuel counter bounds every scripted implementation so that lying cannot make an execution infinite"],
+    )
+
+
 PLANS = {
+    "C17": plan_c17,
+    "C16": plan_c16,
     "C18": plan_c18,
     "C05": plan_loom("C05", "every read sees the expected bytes at the original address; at most one party obtains the buffer without copying and whoever does overwrites it; the tracked buffer is freed exactly once, no control block referring to it leaks, no block is freed twice"),
     "C06": plan_loom("C06", "loom's causality check on ghost UnsafeCells: a ghost read before every use/drop of a handle, a ghost write at the real free (inside the allocator hook) and after every zero-copy exclusive acquisition; plus loom's own checks on the crate's atomics (with_mut vs concurrent loads)"),
-    "C01": plan_hmc("C01", [], [], "after every step every live handle's bytes, len, Buf::remaining/chunk equal an independent Vec<u8> model with globally unique payload bytes; Vec::from results compared"),
-    "C02": plan_hmc("C02", ["--oom-probes"], ["--oom-probes"], "allocator ledger (unknown/interior/double/wrong-layout frees), canaries and poison verified after every step, containment of every non-empty handle in one live block or registered region, process status (crash handler), fork-isolated allocatable-but-huge requests", profiles_quick=("rel", "dbg")),
-    "C03": plan_hmc("C03", ["--perms"], ["--perms"], "drop-all epilogue after every transition and in every permutation at every new canonical state: no crate-attributed block live, no double free; instrumented owner: as_ref once, dropped exactly once, not before the last view, also when as_ref panics"),
+    "C01": plan_hmc("C01", [], [], "after every step every live handle's bytes, len, Buf::remaining/chunk equal an independent Vec<u8> model with globally unique payload bytes; Vec::from results compared", with_loom=True),
+    "C02": plan_hmc("C02", ["--oom-probes"], ["--oom-probes"], "allocator ledger (unknown/interior/double/wrong-layout frees), canaries and poison verified after every step, containment of every non-empty handle in one live block or registered region, process status (crash handler), fork-isolated allocatable-but-huge requests", profiles_quick=("rel", "dbg"), with_loom=True),
+    "C03": plan_hmc("C03", ["--perms"], ["--perms"], "drop-all epilogue after every transition and in every permutation at every new canonical state: no crate-attributed block live, no double free; instrumented owner: as_ref once, dropped exactly once, not before the last view, also when as_ref panics", with_loom=True),
     "C04": plan_hmc("C04", [], [], "BytesMut capacity regions pairwise disjoint, disjoint from visible Bytes, inside one live block; fill-spare writes invisible elsewhere; reserve/try_reclaim promises incl. unrepresentable sizes", profiles_quick=("rel", "dbg")),
-    "C07": plan_hmc("C07", [], [], "per transition: listed sharing operations allocate no align-1 block and every resulting non-empty handle (for split_off/split_to also empty ones) starts at source address + logical offset"),
+    "C07": plan_hmc("C07", [], [], "per transition: listed sharing operations allocate no align-1 block and every resulting non-empty handle (for split_off/split_to also empty ones) starts at source address + logical offset", with_loom=True),
     "C08": plan_hmc("C08", ["--probes"], ["--probes"], "is_unique() evaluated on every live Bytes in every state against physical sharing (allocator map) and a conservative lineage relation; try_into_mut Ok iff unique, same address; sole-owner probes: try_reclaim(n) true for n in {0,1,T-1,T} and reserve(n) without allocator events"),
     "C13": plan_hmc("C13", [], [], "every out-of-contract action at every reachable state must panic (or be the documented no-op) and leave ptr/len/cap/bytes of every handle unchanged; exploration continues and the epilogue checks release", profiles_quick=("rel", "dbg")),
     "C09": plan_c09,
